@@ -279,6 +279,41 @@ def run_dtype(case, ctx):
                 f'{kind} {"first" if first else "second"} operand differs '
                 'from the result with the same values stored as float64',
                 shape=n, d=d)
+    # cores of DIFFERENT dtypes in one tensor (an integer-typed mask / count
+    # core among float64 cores): value, gradient, dense export, sum
+    Ym, Yr = [], []
+    for k, G in enumerate(Ya):
+        if rng.random() < 0.5 or k == d // 2:
+            H = np.rint(3 * G)
+            # (int32 / int64: partial products of narrow integer cores wrap
+            # around in numpy itself, see DESIGN 8.7)
+            Ym.append(H.astype([np.int32, np.int64][int(rng.integers(2))]))
+            Yr.append(H.astype(float))
+        else:
+            Ym.append(G.copy())
+            Yr.append(G.copy())
+    A_r, AB_r = ref.dense_ld(Yr), ref.absbound(Yr)
+    tol_r = C * ref.nterms(Yr) * EPS * AB_r
+    ctx.close('dtype-upcast', np.asarray(teneva.full(Ym), dtype=float), A_r,
+        tol_r, 'full of a tensor with integer-typed and float64 cores')
+    ctx.close('dtype-upcast', teneva.sum(Ym), np.sum(A_r), C * (ref.nterms(Yr)
+        + sum(n)) * EPS * np.sum(AB_r), 'sum of a tensor with mixed core dtypes')
+    for _ in range(3):
+        i = [int(rng.integers(k)) for k in n]
+        vm, gm = teneva.get_and_grad(Ym, i)
+        vr, gr = teneva.get_and_grad(Yr, i)
+        ti = tuple(i)
+        ctx.close('dtype-upcast', vm, A_r[ti], tol_r[ti], 'get_and_grad value, '
+            'mixed core dtypes')
+        for k in range(d):
+            g1, g2 = np.asarray(gm[k], dtype=float), np.asarray(gr[k])
+            okg = g1.shape == g2.shape and bool(np.all(np.abs(g1 - g2) <= C
+                * ref.nterms(Yr) * EPS * (np.abs(g2) + float(np.abs(g2).max()
+                if g2.size else 0.)) + 1e-300))
+            ctx.check('dtype-upcast', okg, lambda: f'get_and_grad: gradient '
+                f'with respect to core {k} (stored as {Ym[k].dtype}) differs '
+                f'from the gradient of the same tensor stored in float64: '
+                f'max deviation {float(np.abs(g1 - g2).max()):.3e}', shape=n)
     ctx.nontrivial(['dtype', n, kind])
 
 
@@ -519,6 +554,19 @@ def run_stabprod(case, ctx):
         ctx.close('stab-scalar-product', got, np.sqrt(np.sum(A1 * A1)),
             tol / np.sqrt(np.sum(A1 * A1)), 'norm(use_stab=True): v 2^p '
             'differs from the dense norm')
+    # relative accuracy of a tensor against an exact copy of itself when its
+    # norm is far below 2^-500 (single cores ordinary, ~1e-40): the distance
+    # is 0 (or rounding), never a saturation value
+    dt_ = int(rng.integers(5, 9))
+    nt_ = [int(rng.integers(2, 4)) for _ in range(dt_)]
+    Yt = [G * 10.0 ** -float(rng.uniform(30, 45)) for G in gen.cores(rng, nt_,
+        gen.rand_ranks(rng, dt_, 3), 'normal')]
+    for Ycopy in ([G.copy() for G in Yt], Yt):
+        acc = teneva.accuracy(Yt, Ycopy)
+        ctx.check('stab-scalar-product', bool(np.isfinite(acc)) and
+            0 <= acc <= 1e-6, lambda: f'accuracy(Y, copy of Y) = {acc!r} for a '
+            f'tensor of norm ~1e-{35 * dt_} (d = {dt_}, cores ~1e-40): the '
+            'true relative distance is 0')
     ctx.nontrivial(['stabprod', d, q, ex[0]])
     # long chains whose bonds carry a diagonal gauge diag(s, 1/s): every entry
     # is ordinary, the partial contractions grow like s^(2k) for a while -
